@@ -114,6 +114,24 @@ def run(ck, m):
         b = sk[0]
         w = [bi for bi, t in b.calls() if 'write_keys_map' in callee(t)]
         v = [bi for bi, t in b.calls() if 'mark_op_log_as_valid' in callee(t)]
+        # what is written is the whole in-memory key map (a clone of it), not a filtered subset: every id the log may name is stored
+        whole = True
+        why_w = ''
+        from nl.locks import backward_slice
+        for x in w:
+            arg = b.term(x)['args'][0]
+            calls_, _ = backward_slice(b, arg)
+            leafs = {callee_decl(b.term(c)).split('::')[-1] for c in calls_}
+            shrink = leafs & {'retain', 'remove', 'filter', 'filter_map', 'drain', 'take', 'skip', 'truncate', 'clear', 'extract_if'}
+            mut_calls = [bi2 for bi2, t2 in b.calls() if callee_decl(t2).split('::')[-1] in ('retain', 'remove', 'clear', 'drain', 'extract_if')
+                         and 'HashMap::<std::string::String, u64' in t2['f'].get('dargs', '') and b.dominates(bi2, x)]
+            if shrink or mut_calls:
+                whole = False
+                why_w = sorted(shrink | {callee_decl(b.term(c)).split('::')[-1] for c in mut_calls})
+        ck.ob('C16.b', short(b.id), 'whole-key-map-written', bool(w) and whole,
+              'the keys snapshot stores the whole key map' if w and whole else
+              'the keys snapshot stores a subset of the key map (%s): records of the omitted keys no longer decode after a restart and their ids '
+              'are handed out again (ids are taken from the map\'s length)' % why_w, '%s:%s' % (b.file, b.line))
         ok = bool(w) and bool(v) and all(b.dominates(x, y) for x in w for y in v)
         ck.ob('C16.b', short(b.id), 'map-before-valid', ok,
               'the key map is written before the log is marked valid' if ok else 'the log can be marked valid before the key map is on disk', '%s:%s' % (b.file, b.line))
@@ -141,6 +159,18 @@ def run(ck, m):
                         if isinstance(v_, str):
                             v_ = [ord(ch) for ch in v_]
                         disk += list(v_) if isinstance(v_, list) else [v_]
+        # the flag is one byte at offset 0: a writer that keeps its stream (the replication loop's) must rewind before each write,
+        # a writer that opens the file itself starts at 0
+        wcalls = [bi for bi, t in b.calls() if callee_decl(t) in ('std::io::Write::write', 'std::io::Write::write_all')]
+        rewinds = [bi for bi, t in b.calls() if callee_decl(t) in ('std::io::Seek::seek', 'std::io::Seek::rewind')]
+        opens = [bi for bi, t in b.calls() if P.bodies.get(callee(t)) is not None and 'File' in P.bodies[callee(t)].locals[0]]
+        at_zero = bool(wcalls) and all(any(b.dominates(r_, w_) for r_ in rewinds) for w_ in wcalls)
+        if not at_zero and opens and not rewinds:
+            at_zero = all(any(b.dominates(o_, w_) for o_ in opens) for w_ in wcalls)
+        ck.ob('C16.b', short(b.id), 'flag-written-at-offset-zero', at_zero,
+              'the flag byte is written after a rewind to offset 0' if at_zero else
+              '%s writes the flag byte without rewinding its stream: a long-lived stream writes the second and later flags at offset 1, 2, … '
+              'while the reader looks at offset 0 — the disk keeps saying valid after a new key was logged' % name, '%s:%s' % (b.file, b.line))
         ok = mem == [want] and disk == [1 if want else 0]
         ck.ob('C16.b', short(b.id), 'memory-equals-disk', ok,
               '%s stores %s in memory and writes %s to the file' % (name, mem, disk), '%s:%s' % (b.file, b.line))
